@@ -28,7 +28,8 @@ func VerifH_C11_Struct() {
 		verifFail("c11-harness-text-not-json")
 		return
 	}
-	for _, doc := range []interface{}{nil, map[string]interface{}{"a": 1.0}} {
+	// a JSON text denotes itself whatever the input document is
+	for _, doc := range []interface{}{nil, map[string]interface{}{"a": 1.0}, []interface{}{}, []interface{}{1.0, map[string]interface{}{"a": 2.0}}, map[string]interface{}{}, "str", 5.0} {
 		got := hEval(text, doc)
 		if want == nil {
 			verifAssert(got.kind == oValue && got.val == nil, "c11-null")
